@@ -627,6 +627,15 @@ pub fn run(tier_name: &str, seed: u64) -> i32 {
         }
         tally
     });
+    let mut tally = tally;
+    if tier_name == "thorough" {
+        // validate the rayon contract model against the real crate (model validation, not a verdict)
+        let (validated, bad) = crate::validate_rayon::validate(seed, 150, false);
+        tally.bump("traces_validated_against_impl", validated);
+        if bad > 0 {
+            tally.harness_errors.push(format!("sim-rayon model does not cover {bad} outcomes of real rayon"));
+        }
+    }
     let wall = started.elapsed().as_secs_f64();
     let meta = CheckMeta {
         property: "C10",
